@@ -8,11 +8,16 @@ package querystring
 // C12: building the filter from its JSON form: "modifier" feeds the two when-true branches, "else" the two when-false
 // branches, each side with its own projection of the parsed subtree; the filter is offered under the message's scope.
 //@ extern func parse.FromJSON
-//@   ensures (result1 == nil) == (result0 != nil)
+//@   modifies fjErr
+//@   ensures (result1 == nil) == (result0 != nil) && fjErr == (old(fjErr) || result1 != nil)
 //@ extern func json.Unmarshal
 //@   modifies filterJSON.*
 //@ func filterFromJSON
 //@   serves C12
+//@   modifies fjErr
+//@   noframe
+//@   at entry 0 before set fjErr = false
+//@   ensures[a-parse-error-in-any-subtree-rejects-the-node] fjErr ==> result1 != nil && result0 == nil
 //@   at call 0 of RequestWhenTrue before assert[then-branch-request-side-from-modifier] self == f.Filter && arg0 == r.reqmod
 //@   at call 0 of ResponseWhenTrue before assert[then-branch-response-side-from-modifier] self == f.Filter && arg0 == r.resmod
 //@   at call 0 of RequestWhenFalse before assert[else-branch-request-side-from-else] self == f.Filter && arg0 == em.reqmod
